@@ -27,6 +27,8 @@ def reclaim(case, res):
 
     def body(S, rng):
         opts = dict(prm.get("opts") or {})
+        if mode == "hostile":
+            opts["per_conn_ids"] = False      # (the hostile generator numbers its ids itself)
         b = Bus(S, rng, opts)
         b.start()
         n = prm.get("n_ops", 60)
